@@ -97,6 +97,14 @@ def build(run, prop=ID):
     sect(run, build_parse_msg, run, prop, E)
     sect(run, build_parse_all, run, prop, E)
     sect(run, build_append, run, prop, E)
+    # the records hold gen_msg() octets and are read back through parse_msg(): the message codec's round trip (C01's contract, which the
+    # summaries above assume) is discharged in this check as well, so a defect in the codec that loses stored content fails here too
+    from props import C01 as _C01
+    from contracts.py.common import install_validate_summaries
+    _dm = toolkit("data_msg")
+    E2 = new_engine()
+    sect(run, _C01.build_direct, run, prop, _dm, E2, install_validate_summaries())
+    E.stats["paths"] += E2.stats["paths"]
     note_engine(run, E)
     run.assume("file object model: read/seek/write semantics of a binary file opened 'a+b' as stated in the module docstring")
     run.assume("the capture was produced by append_msg/append_all (well-formed CAP) and possibly cut at any byte offset")
@@ -560,6 +568,9 @@ def build_append(run, prop, E):
 # ------------------------------------------------------------------ witness / replay
 
 def witness(o, model):
+    if isinstance(o.tag, dict) and o.tag.get("side") in ("gen", "direct", "lemma", "parse"):
+        from props import C01 as _C01
+        return _C01.witness(o, model)
     t = dict(o.tag or {}) if isinstance(o.tag, dict) else {}
     for nme in ("idx", "skip", "count", "nrec", "file.len", "K"):
         t[nme] = mval(model, z3.Int(nme))
@@ -573,6 +584,9 @@ def replay(payload):
     record boundaries), run the real reader and compare with the definition."""
     import io, random
     f = payload["inputs"]
+    if isinstance(f, dict) and f.get("side") in ("gen", "direct", "lemma", "parse"):
+        from props import C01 as _C01
+        return _C01.replay(payload)
     dd = toolkit("data_dump")
     dm = toolkit("data_msg")
     import logging
